@@ -62,7 +62,15 @@ class _RequestHandler:
         self.logger.info("<= [%s]: %s", client_address, data)
         try:
             response = {}
-            request = json.loads(data)
+            try:
+                request = json.loads(data)
+            except (ValueError, RecursionError) as e:
+                # Besides JSONDecodeError (a ValueError), the parser raises a plain
+                # ValueError for oversized integer literals and a RecursionError for
+                # deeply nested documents. They are all format errors.
+                self.logger.debug("JSON error: %s", e)
+                response = self.protocol.format_error()
+                return
             self.logger.debug("Delivering request")
             response = self.protocol.handle_request(request)
             self.logger.debug("Got response: %s", response)
